@@ -182,17 +182,18 @@ def shrink(case, still, max_tests=200):
     return cur
 
 
-def run_both(binary, case):
+def run_both(binary, case, driver='qconc'):
     t = case_text('0', case)
-    m = vlib.run_model('run', t, driver='qconc').get('0', [])
+    m = vlib.run_model('run', t, driver=driver).get('0', [])
     im = vlib.run_impl(binary, {'0': t}, ['0'], timeout=60).get('0', ['<missing>'])
     return t, m, im
 
 
-def correspond(ctx, binary, cases, what):
+def correspond(ctx, binary, cases, what, driver='qconc', monitors=None):
+    monitors = monitors or globals()['monitors']
     ids = [str(i) for i in range(len(cases))]
     texts = {i: case_text(i, cases[int(i)]) for i in ids}
-    model = vlib.run_model('run', ''.join(texts[i] for i in ids), driver='qconc')
+    model = vlib.run_model('run', ''.join(texts[i] for i in ids), driver=driver)
     impl = vlib.run_impl(binary, texts, ids, timeout=900)
     stats = {'compared': 0, 'disagreements': 0, 'monitor_alarms': 0, 'deadlocks': 0, 'actions': 0, 'distinct': 0}
     distinct = set()
@@ -218,18 +219,18 @@ def correspond(ctx, binary, cases, what):
         case = cases[int(i)]
         if probs:
             def still(c):
-                t, m, im = run_both(binary, c)
+                t, m, im = run_both(binary, c, driver)
                 return bool(monitors(im, c))
             small = shrink(case, still)
-            t, m, im = run_both(binary, small)
+            t, m, im = run_both(binary, small, driver)
             ctx.violation(t + '# model: %s\n# impl : %s\n' % (' | '.join(m), ' | '.join(im)),
                           '%s: %s' % (what, '; '.join(monitors(im, small) or probs)))
         else:
             def still2(c):
-                t, m, im = run_both(binary, c)
+                t, m, im = run_both(binary, c, driver)
                 return m != im
             small = shrink(case, still2)
-            t, m, im = run_both(binary, small)
+            t, m, im = run_both(binary, small, driver)
             d = vlib.first_diff(m, im)
             ctx.violation(t + '# model: %s\n# impl : %s\n' % (' | '.join(m), ' | '.join(im)),
                           '%s: implementation differs from the model at trace line %s: expected `%s`, implementation `%s`'
